@@ -606,11 +606,12 @@ def method_task(pid, method, policy, nested=False):
 METHODS = ['touch', '__contains__', 'get', 'pop', '__delitem__', 'delete', 'set', 'add', 'incr']
 
 
-def dependency_tasks(pid, methods, policy='least-recently-stored'):
+def dependency_tasks(pid, methods, policy='least-recently-stored', tier='quick'):
     """The dictionary contracts of the Cache methods that a higher layer (recipes, Index, DjangoCache, memoize)
     is verified AGAINST, re-run under that property's name: a change inside Cache.<method> that breaks the
     contract the layer relies on is then reported by the layer's own check too."""
-    return [('contracts.c03', 'method_task', (pid, m, policy)) for m in methods]
+    pols = [policy] if tier == 'quick' or policy == 'none' else POLICIES     # thorough: every eviction policy
+    return [('contracts.c03', 'method_task', (pid, m, pol)) for m in methods for pol in pols]
 
 
 # clauses not yet under contract (bulk removal, iteration, queue operations) are covered by the bounded
